@@ -25,6 +25,10 @@ import struct
 import numpy as np
 
 
+def _float_from_bits(bits):
+    return struct.unpack('f', struct.pack('I', int(bits)))[0]
+
+
 # Code from davidejones at https://gamedev.stackexchange.com/a/28756
 def fp16_to_float(float16):
     s = int((float16 >> 15) & 0x00000001)    # sign
@@ -33,7 +37,7 @@ def fp16_to_float(float16):
 
     if e == 0:
         if f == 0:
-            return int(s << 31)
+            return _float_from_bits(s << 31)
         else:
             while not (f & 0x00000400):
                 f <<= 1
@@ -43,14 +47,13 @@ def fp16_to_float(float16):
             # print(s,e,f)
     elif e == 31:
         if f == 0:
-            return int((s << 31) | 0x7f800000)
+            return _float_from_bits((s << 31) | 0x7f800000)
         else:
-            return int((s << 31) | 0x7f800000 | (f << 13))
+            return _float_from_bits((s << 31) | 0x7f800000 | (f << 13))
 
     e += 127 - 15
     f <<= 13
-    result = int((s << 31) | (e << 23) | f)
-    return struct.unpack('f', struct.pack('I', result))[0]
+    return _float_from_bits((s << 31) | (e << 23) | f)
 
 
 def decompress_quaternion(comp):
